@@ -269,6 +269,15 @@ XalanOutputStream::setOutputEncoding(const XalanDOMString&  theEncoding)
     // Flush, just in case.  This should probably be an error...
     flushBuffer();
 
+    // Asking for the encoding that is already in effect changes nothing.
+    // In particular, the stream prolog (the byte-order mark) must not be
+    // written a second time, as happened when the HTML formatter took over
+    // the stream of the XML formatter (implicit HTML output).
+    if (m_encoding.empty() == false && m_encoding == theEncoding)
+    {
+        return;
+    }
+
     XalanTranscodingServices::destroyTranscoder(m_transcoder);
 
     m_transcoder = 0;
